@@ -266,7 +266,7 @@ func runSnap(fields []string) string {
 func genSnap(r *Rng, tier string, n int, emit func(string)) {
 	for c := 0; c < n; c++ {
 		cr := r.Fork()
-		nMeth := 1 + cr.Intn(2)
+		nMeth := 1 + cr.Intn(3)
 		methods := make([]string, nMeth)
 		for i := range methods {
 			methods[i] = Pick(cr, methodPool)
@@ -290,7 +290,11 @@ func genSnap(r *Rng, tier string, n int, emit func(string)) {
 			case x < 17:
 				steps = append(steps, "D,"+m+","+hx(p))
 			case x < 18:
-				steps = append(steps, "T,"+Pick(cr, []string{"", m}))
+				if cr.Chance(35) {
+					steps = append(steps, "T,")
+				} else {
+					steps = append(steps, "T,"+genTruncMethods(cr, methods))
+				}
 			case x < 20:
 				if !inTxn {
 					steps = append(steps, "B")
